@@ -67,14 +67,14 @@ inductive Action
   | recvReqVote (n : Nat) (m : Msg)
   | recvVote (n : Nat) (m : Msg)
   | clientAppend (n : Nat) (cmd : Nat)
-  | sendAppend (n dst prev k : Nat)
+  | sendAppend (n dst prev k c : Nat)
   | recvAppend (n : Nat) (m : Msg)
   | recvAck (n : Nat) (m : Msg)
   | advanceCommit (n i : Nat)
   | stepDown (n : Nat)
   | apply (n : Nat)
   | observeTerm (n t : Nat)
-  | sendSnapshot (n dst k : Nat)
+  | sendSnapshot (n dst k c : Nat)
   | recvSnapshot (n : Nat) (m : Msg)
   | lose (m : Msg)
   | restart (n c a : Nat)
@@ -195,11 +195,13 @@ def step (N : Nat) (s : State) : Action → Option State
         termLog := upd1 s'.g.termLog ns.term log'
         acked := upd2 s'.g.acked ns.term n (log'.length - 1) } }
     else none
-  | .sendAppend n dst prev k =>
+  | .sendAppend n dst prev k c =>
+    -- `c` is the commit index written into the message: the node's commit index or (right after a
+    -- restart, when the stored commit index is older than the dump) a smaller, earlier value
     let ns := s.nodes n
-    if n < N ∧ dst ≠ n ∧ ns.role = .leader ∧ prev < ns.log.length then
+    if n < N ∧ dst ≠ n ∧ ns.role = .leader ∧ prev < ns.log.length ∧ c ≤ ns.commit then
       let es := (ns.log.drop (prev + 1)).take k
-      some { s with msgs := s.msgs ++ [Msg.append ns.term n dst prev (termAt ns.log prev) es ns.commit] }
+      some { s with msgs := s.msgs ++ [Msg.append ns.term n dst prev (termAt ns.log prev) es c] }
     else none
   | .recvAppend n m =>
     match m with
@@ -247,10 +249,10 @@ def step (N : Nat) (s : State) : Action → Option State
   | .observeTerm n t =>
     let ns := s.nodes n
     if ns.term ≤ t then some (setNode s n (adoptTerm ns t)) else none
-  | .sendSnapshot n dst k =>
+  | .sendSnapshot n dst k c =>
     let ns := s.nodes n
-    if n < N ∧ dst ≠ n ∧ ns.role = .leader ∧ k ≤ ns.applied ∧ k < ns.log.length then
-      some { s with msgs := s.msgs ++ [Msg.snapshot ns.term n dst k (termAt ns.log k) ns.commit (ns.log.take (k + 1))] }
+    if n < N ∧ dst ≠ n ∧ ns.role = .leader ∧ k ≤ ns.applied ∧ k < ns.log.length ∧ c ≤ ns.commit then
+      some { s with msgs := s.msgs ++ [Msg.snapshot ns.term n dst k (termAt ns.log k) c (ns.log.take (k + 1))] }
     else none
   | .recvSnapshot n m =>
     match m with
@@ -264,7 +266,7 @@ def step (N : Nat) (s : State) : Action → Option State
           let commit' := if ns1.commit < c then max ns1.commit (min c k) else ns1.commit
           let keep := decide (k ≤ ns1.applied) || (decide (k < ns1.log.length) && decide (termAt ns1.log k = kTerm))
           let ns2 := if keep then { ns1 with commit := commit' }
-                     else { ns1 with log := pfx, applied := k, commit := commit' }
+                     else { ns1 with log := pfx, applied := k, commit := max commit' k }
           some { (setNode s n ns2) with
             msgs := msgs' ++ [Msg.ack t n ldr k],
             g := { s.g with acked := upd2 s.g.acked t n (max (s.g.acked t n) k) } }
